@@ -7,6 +7,7 @@ scalar / single-row / single-column results; every member cell must show its
 own element."""
 
 import itertools
+import threading
 
 from hypothesis import strategies as st
 
@@ -206,6 +207,31 @@ def check_case(rec, senv, template, kind, h, w, th, tw, vals, form='op'):
     except Exception as exc:
         rec.fail(f'{tag}:member-raises:{exc_key(exc)}', case,
                  f'{formula} over {target}: member cell raised {exc!r}'[:400])
+        return
+    # ... also when this is the very first formula a thread evaluates (the
+    # array-formula context is per-thread state that is set up lazily)
+    box = {}
+
+    def first_in_thread():
+        try:
+            box['got'] = normalise(
+                compile_spec(spec).evaluate(f'S!{target}'), th, tw)
+        except Exception as exc:        # noqa
+            box['exc'] = exc
+    worker = threading.Thread(target=first_in_thread)
+    worker.start()
+    worker.join()
+    rec.label('observed-on-fresh-thread')
+    if 'exc' in box:
+        rec.fail(f'{tag}:fresh-thread:raises:{exc_key(box["exc"])}', case,
+                 f'{formula} over {target} as first evaluation of a new '
+                 f'thread raised {box["exc"]!r}'[:400])
+    elif box['got'] != got and not all(
+            same(a, b) for ra, rb in zip(box['got'], got)
+            for a, b in zip(ra, rb)):
+        rec.fail(f'{tag}:fresh-thread', case,
+                 f'{formula} over {target}: {got} on the main thread, '
+                 f'{box["got"]} as first evaluation of a new thread')
 
 
 SHAPES = [(h, w) for h in range(1, 5) for w in range(1, 5)]
